@@ -72,12 +72,31 @@ def getOutcome (o : Json) : Except String Outcome := do
   | "value" => return .otherExc
   | _ => throw s!"bad outcome {k}"
 
+def isWire : Tok → Bool
+  | .wire _ _ _ => true
+  | .par _ => true
+  | _ => false
+def isFail : Tok → Bool
+  | .wire _ _ true => true
+  | .par ss => ss.any (fun st => st.any (·.2))
+  | _ => false
+def isPar : Tok → Bool
+  | .par _ => true
+  | _ => false
+
 def getTok (j : Json) : Except String Tok := do
   let t ← j.getObjValAs? String "t"
   match t with
   | "enter" => return .enter
   | "exit" => return .exit
   | "wire" => return .wire (← getRat j "gap") (← getRat j "service") (← getBool j "fails")
+  | "par" =>
+    let ss ← (← getArr j "streams").mapM (fun st => do
+      let ws ← st.getArr?
+      ws.toList.mapM (fun w => do return ((← getRat w "service"), (← getBool w "fails"))))
+    -- a failing wire request next to concurrently running sibling streams (cancellation of in-flight requests) is C18's subject
+    if ss.length > 1 && ss.any (fun st => st.any (·.2)) then throw "out-of-domain: failing wire request in one of several concurrent streams"
+    return .par ss
   | _ => throw s!"bad token {t}"
 
 def raisesOutcome : Outcome → Bool
@@ -102,7 +121,7 @@ def getReq (j : Json) : Except String Req := do
       let service ← getRat j "service"
       pure [Tok.wire pre service false]
   if !balanced prog 0 then throw "out-of-domain: unbalanced request program"
-  if prog.any (fun t => match t with | .wire _ _ true => true | _ => false) && !raisesOutcome out then
+  if prog.any isFail && !raisesOutcome out then
     throw "out-of-domain: failing wire request without an exception outcome"
   return { gen, prog, post, draw, out, rc, rp, sp }
 
@@ -160,13 +179,6 @@ def innerTag : Inner → String
   | .det _ => "det"
   | .poi _ => "poi"
 
-def isWire : Tok → Bool
-  | .wire _ _ _ => true
-  | _ => false
-def isFail : Tok → Bool
-  | .wire _ _ true => true
-  | _ => false
-
 /-- shape of the request programs that were actually executed (the first `n` of the plan) -/
 def progTags (reqs : List Req) (n : Nat) : List String :=
   let rs := reqs.take n
@@ -175,6 +187,11 @@ def progTags (reqs : List Req) (n : Nat) : List String :=
   ++ (if rs.any (fun q => match q.prog.filter isWire with | t :: _ => isFail t | [] => false) then ["fail-first-wire"] else [])
   ++ (if rs.any (fun q => match q.prog.filter isWire with | _ :: ts => ts.any isFail | [] => false) then ["fail-later-wire"] else [])
   ++ (if rs.any (fun q => (q.prog.filter isWire).isEmpty) then ["no-wire"] else [])
+  ++ (if rs.any (fun q => q.prog.any isPar) then ["streams"] else [])
+  ++ (if rs.any (fun q => q.prog.any (fun t => match t with | .par ss => ss.length > 1 | _ => false)) then ["concurrent"] else [])
+  ++ (if rs.any (fun q => match q.prog.filter isWire with | t :: _ => isPar t | [] => false) then ["first-send-in-stream"] else [])
+  ++ (if rs.any (fun q => match (q.prog.filter isWire).getLast? with | some t => isPar t | none => false) then ["last-response-in-stream"] else [])
+  ++ (if rs.any (fun q => !(q.prog.filter isWire).isEmpty && (q.prog.filter isWire).all isPar) then ["all-in-streams"] else [])
 
 def runTags (c : Cfg) (f : Final) (cap : Nat) : List String :=
   let o := f.out
